@@ -42,6 +42,13 @@ CHECKS = {
              "the real code along random histories equals the specification's canonical table (exact games), equals bit for bit the table of a fresh "
              "object given the same knowledge, and is unchanged by a second computation.",
         note="exhaustive within the model constants (n=3; n=4 reduced in thorough); step/unstep round trips of the environment are covered under C09/C13"),
+    "C17": dict(
+        level="model_checking", design="§5 C17", technique="TLC on MC_ICGame (all operation sequences, ghost meaning of 'known') + trace validation of random histories + replay of TLC-simulated behaviours into the real object",
+        text="TLC explores every sequence of public operations (set/unset/reveal/un-reveal/bulk set/bulk reset/bulk and scalar bound setters/copy/negate/add) "
+             "on up to three live objects for n<=2 and checks known-iff-meant, lower=upper=value, bulk setters respecting known rows, copy independence, negation swap/involution; "
+             "random histories of the real object (n=1..5, several live objects) are validated call by call -- tables of ALL live objects and the outcome of every getter "
+             "(value / ValueError / None / NaN) after every call -- and behaviours generated by TLC's simulator are executed on the real object and validated.",
+        note="scalar bound setters only on unknown coalitions; duplicate-free coalition lists; exhaustive within n<=2, values {0,1}, depth<=4"),
 }
 
 NOT_YET = "check not built yet (build in progress; see DESIGN.md §5 for the plan)"
